@@ -84,8 +84,12 @@ func (cs ChainStorage) FindConversionChain(crdName string, rule Rule) []Rule {
 					continue
 				}
 
-				//nolint
-				newPath := append(chain.PathsCache[ruleToCheck], nextRule)
+				// Copy the cached path: appending to it directly writes into spare capacity
+				// shared with other paths that extend the same cached path.
+				basePath := chain.PathsCache[ruleToCheck]
+				newPath := make([]Rule, 0, len(basePath)+1)
+				newPath = append(newPath, basePath...)
+				newPath = append(newPath, nextRule)
 
 				// This path is already discovered.
 				p := chain.SearchPathForRule(newRule)
